@@ -96,9 +96,6 @@ def one(P, std, payload, mons=None):
     exp = [norm(d) for d in inserted]
     if len(got) != len(exp):
         key = "directive-count"
-        if (len(got) < len(exp) and not any(s.kind == "program" for s in P.stmts)
-                and any(s.kind == "end_program" for s in P.stmts) and text.lstrip().startswith("#")):
-            key = "main-program-without-program-stmt-drops-leading-directive"
         return viol(key, "%d directive nodes for %d inserted lines" % (len(got), len(exp))), text, len(inserted)
     angle = None
     for k, (g, e) in enumerate(zip(got, exp)):
